@@ -38,7 +38,7 @@ var boundedRules = map[string]string{
 	"C01": "BOUNDED. Sources: every string over {a,b} of length 0..13 (0..16 thorough), every string over {0,1,2} of length 1..8 (1..10 thorough), periodic sources (16 periods x 26 lengths x 5 break positions), repeats at distances 65534..65537 and 131071/131072, and pseudo-random structured sources (seeded). Histories of the reused objects include calls that failed for lack of room. Each is compressed by the fast compressor (fresh object, one object reused across all cases, pooled package function; destination exactly CompressBlockBound and 3 larger) and by the HC compressor at depths 0,1,2,7,512,4096,131072 (fresh, reused, pooled); the result must be positive with nil error, strictly valid and decode to the source by the independent decoder and by the package decoder. A case is non-trivial when the source is longer than 12 bytes (shorter sources are emitted as literals only); distinct by content hash.",
 	"C04": "BOUNDED. Blocks: one match with literal lengths {0,1,14,15,16,270} x match lengths {4,5,18,19,20,274} x offsets {0,1,2,3,4,7,8,15,16,17,18,di,di+1,di+len(dict),di+len(dict)+1,65535} x final literals {0,1,5,12,17} x dictionaries of length {0,1,27,70000}; every truncation and six values at each structural byte of the small ones; the same blocks ending right after the match (no final literals); two-match blocks whose second match reaches into the first / the dictionary; long blocks of 50..450 sequences; blocks from a random sequence grammar and bit flips in real compressor output (seeded). Destination exactly large enough, one byte short, five and forty bytes larger. Outcome (error or not), length and bytes must equal the independent decoder's, whatever the destination held before, with nothing written beyond len(dst). Run in the default build (assembly decoder) and with -tags noasm (portable decoder). Non-trivial: blocks longer than 3 bytes; distinct by content hash.",
 	"C14": "BOUNDED. Block level: every string over {a,b} of length 0..12 (0..15 thorough), periodic sources (10 periods x 10 lengths up to 70000) and pseudo-random structured sources are compressed by a fresh compressor object, by five long-lived fast compressor objects and four HC objects whose histories began with other inputs (empty, 72000 repeating bytes, 70000 zeros, 100000 random bytes, one byte) and then served every earlier case, and by the pooled package functions (pool poisoned the same way); HC at depths 0,1,7,512,131072; all outputs must be byte-identical to the fresh object's. Frame level: random contents (0..300001 bytes) and option sets (incl. legacy) written with concurrency 1, 2 and 4 as one Write, a random split, 4099-byte writes and ReadFrom; every frame must be byte-identical to the sequential single-Write frame. Non-trivial: sources longer than 4 bytes / contents longer than one block; distinct by content hash. Goroutine schedules are whatever the runs happened to take (not enumerated).",
-	"C08": "BOUNDED. A finite family of call sequences on concurrent Writers and Readers, run under the Go race detector with every block buffer overwritten (0xDB) at the moment it is returned to the pools, so that a use after release is a reported race or corrupt output: concurrency 2 and 4; 0, 1, 2, 5, 17 blocks of 64 KiB plus a partial one; input as one Write, random splits with and without Flush in between, and ReadFrom; on-block-done callbacks installed; Close, Reset and reuse after Close; every Write is handed a scratch copy that the caller overwrites as soon as Write returns; a sink failing at its 1st/2nd/3rd write followed by Reset and reuse; a source that fails after a third of the frame and three bytes before its end (the error must come out, the bytes before it are a prefix, Reset and reuse); the frame read back by a concurrent Reader with small and large buffers and WriteTo; a corrupted block (early error). Each call runs under a 20 s watchdog (a call that does not return is the failure); output must parse, be complete and in submission order; runtime.NumGoroutine must be back at its starting value after Close, after the end of the stream and after an error. Goroutine schedules are whatever the runs took: interleavings are NOT enumerated. Non-trivial: more than one block.",
+	"C08": "BOUNDED. A finite family of call sequences on concurrent Writers and Readers, run under the Go race detector with every block buffer overwritten (0xDB) at the moment it is returned to the pools, so that a use after release is a reported race or corrupt output: concurrency 2 and 4; 0, 1, 2, 5, 17 blocks of 64 KiB plus a partial one; input as one Write, random splits with and without Flush in between, and ReadFrom; on-block-done callbacks installed; Close, Reset and reuse after Close; every Write is handed a scratch copy that the caller overwrites as soon as Write returns; a sink failing at its 1st/2nd/3rd write followed by Reset and reuse; a source that fails after a third of the frame and three bytes before its end (the error must come out, the bytes before it are a prefix, Reset and reuse); the frame read back by a concurrent Reader with small and large buffers and WriteTo; a Reader reset in mid-stream (after reading 0, 10 or 70000 bytes) and after a WriteTo whose destination failed at its 1st/2nd write, then reused; a corrupted block (early error). Each call runs under a 20 s watchdog (a call that does not return is the failure); output must parse, be complete and in submission order; runtime.NumGoroutine must be back at its starting value after Close, after the end of the stream and after an error. Goroutine schedules are whatever the runs took: interleavings are NOT enumerated. Non-trivial: more than one block.",
 	"C20": "BOUNDED. The lz4c binary is built by the check from /repo/cmd/lz4c against /repo's library (go build -modfile with a replace directive; the shipped go.mod pins a release) and run as a process: compress with -size {64K,256K,1M,4M} x -l {0,9} x [-bc] x [-sc] on files of 0, 1, 1000, 65535, 65536, 65537, 131072, 262144, 300001 bytes (random and repetitive; modes 644/600/640; a longer stale output file present), then uncompress in another directory; stdin to stdout both ways; four files on one command line. The .lz4 file must be exactly one well-formed frame (independent frame parser) decoding to the file; -bc / -sc / -size must show in the descriptor as the usage text says; the output must equal what the library writes at the requested level; uncompress must restore bytes and permission bits. A second build with the go.mod as shipped is probed with one -bc case. Non-trivial: files larger than one 64 KiB block.",
 	"C12": "BOUNDED. The C04 family is run in the default build (assembly decoder) and with -tags noasm (portable decoder); both must give the outcome, length and bytes of the same independent decoder on every case, hence the same as each other. Non-trivial: blocks longer than 3 bytes; distinct by content hash.",
 }
